@@ -474,7 +474,9 @@ func (l *State) SetServiceState(s *ServiceState) {
 func (l *State) setServiceStateLocked(s *ServiceState) {
 	key := s.Service.CompoundServiceID()
 	old, hasOld := l.services[key]
-	if hasOld {
+	// An entry that updateSyncState created for a service that only exists in
+	// the catalog (Deleted, pending deregistration) carries no service record.
+	if hasOld && old.Service != nil {
 		s.InSync = s.Service.IsSame(old.Service)
 	}
 	l.services[key] = s
@@ -837,7 +839,11 @@ func (l *State) setCheckStateLocked(c *CheckState) {
 	id := c.Check.CompoundCheckID()
 	existing := l.checks[id]
 	if existing != nil {
-		c.InSync = c.Check.IsSame(existing.Check)
+		// An entry that updateSyncState created for a check that only exists in
+		// the catalog (Deleted, pending deregistration) carries no check record.
+		if existing.Check != nil {
+			c.InSync = c.Check.IsSame(existing.Check)
+		}
 		// If the existing check has a Defercheck, it needs to be
 		// assigned to the new check
 		if existing.DeferCheck != nil && c.DeferCheck == nil {
